@@ -41,7 +41,9 @@ def llvm_tool(name):
 def build():
     env = dict(os.environ, CARGO_NET_OFFLINE="true",
                RUSTFLAGS="--cfg cormacrelf_incremental_rs_verif -Awarnings -C instrument-coverage",
-               CARGO_TARGET_DIR=COVDIR)
+               CARGO_TARGET_DIR=COVDIR,
+               # build scripts and proc macros are instrumented too: keep their profiles out of /repo
+               LLVM_PROFILE_FILE=os.path.join(COVDIR, "build-%p-%m.profraw"))
     # RUSTFLAGS overrides build.rustflags of harness/.cargo/config.toml, hence the cfg is repeated here
     r = subprocess.run(["cargo", f"+{TOOLCHAIN}", "build", "--offline"], cwd=common.HARNESS, env=env,
                        stdout=subprocess.PIPE, stderr=subprocess.STDOUT, text=True)
